@@ -91,7 +91,7 @@ def matrix_pre(res, prop, tier, seed, t_end, specs, observers=(), watcher=False)
     for label, cases, sample in specs:
         if res.findings:
             return
-        Mx.run_cases(res, prop, cases(), tier, seed, t_end, sample, observers, PROPS[prop]['scope'] if label not in ('ttl-rules', 'missing-keys', 'floats', 'sets', 'lists', 'zsets', 'set-options') or prop in ('C01', 'C02', 'C03') and label in ('sets', 'lists', 'zsets', 'set-options') else None,
+        Mx.run_cases(res, prop, cases(), tier, seed, t_end, sample, observers, PROPS[prop]['scope'] if label not in ('ttl-rules', 'missing-keys', 'floats', 'sets', 'lists', 'zsets', 'set-options', 'sort') or prop in ('C01', 'C02', 'C03') and label in ('sets', 'lists', 'zsets', 'set-options', 'sort') else None,
                      label=label, watcher=watcher)
 
 
@@ -934,7 +934,7 @@ RUNNERS = {
     'C01': generic('C01', Cp.plan_single(['str', 'key', 'ttl'], 60, select=0.03), Cp.plan_single(['str', 'key', 'ttl'], 80, select=0.03), 60, 1200,
                    pre=lambda res, tier, seed, t_end, bad: matrix_pre(res, 'C01', tier, seed, t_end, [('strings', Mx.strings_cases, 2200), ('set-options', Mx.set_option_cases, 700), ('ttl-rules', Mx.ttl_cases, 300)])),
     'C02': generic('C02', Cp.plan_single(['list', 'hash', 'set', 'sort', 'key'], 60), Cp.plan_single(['list', 'hash', 'set', 'sort', 'key'], 80), 60, 1200,
-                   pre=lambda res, tier, seed, t_end, bad: matrix_pre(res, 'C02', tier, seed, t_end, [('lists', Mx.lists_cases, 2200), ('sets', Mx.sets_cases, 120)])),
+                   pre=lambda res, tier, seed, t_end, bad: matrix_pre(res, 'C02', tier, seed, t_end, [('lists', Mx.lists_cases, 2200), ('sets', Mx.sets_cases, 120), ('sort', Mx.sort_cases, 1500)])),
     'C03': generic('C03', Cp.plan_single(['zset', 'zset', 'set', 'key'], 60), Cp.plan_single(['zset', 'zset', 'set', 'key'], 80), 60, 1200, OBSERVERS['C03'],
                    pre=lambda res, tier, seed, t_end, bad: matrix_pre(res, 'C03', tier, seed, t_end, [('zsets', Mx.zsets_cases, 1800), ('floats', Mx.floats_cases, 800)],
                                                                     OBSERVERS['C03'])),
